@@ -257,7 +257,8 @@ def indeg_init(prog: Program) -> RuleResult:
     for node in walk_no_nested(fn1):
         if isinstance(node, ast.If) and isinstance(node.test, ast.Compare):
             text = ast.unparse(node.test)
-            if "len(result)" in text and f"len({func_params(fn1)[0]})" in text and isinstance(node.test.ops[0], ast.Eq):
+            returned = {dotted(r.value) for r in ast.walk(node) if isinstance(r, ast.Return) and r.value is not None}
+            if any(nm and f"len({nm})" in text for nm in returned) and f"len({func_params(fn1)[0]})" in text and isinstance(node.test.ops[0], ast.Eq):
                 okl = True
     if okl:
         res.ok(f"{TOPO}:toposort/cycle", "returns the ordering only when it covers the graph")
